@@ -153,6 +153,21 @@ def pair(draw, flavours=("cert", "cert", "cert", "srp", "srp_cert", "anon")):
     return case
 
 
+def full_side(role, vmin=(3, 0), vmax=(3, 4)):
+    """The widest policy of the lattice (every list complete)."""
+    return {"minVersion": list(vmin), "maxVersion": list(vmax),
+            "cipherNames": list(CIPHERS), "macNames": list(MACS),
+            "keyExchangeNames": list(KX_ALL), "eccCurves": list(CURVES),
+            "dhGroups": list(DHGROUPS), "keyShares": [],
+            "rsaSigHashes": list(HASHES), "ecdsaSigHashes": list(HASHES),
+            "dsaSigHashes": list(HASHES), "rsaSchemes": ["pss", "pkcs1"],
+            "more_sig_schemes": ["Ed25519", "Ed448"],
+            "minKeySize": 1023, "maxKeySize": 8193,
+            "useEncryptThenMAC": True, "useExtendedMasterSecret": True,
+            "requireExtendedMasterSecret": False, "record_size_limit": None,
+            "defaultCurve": "secp256r1"}
+
+
 def enable_own_cred(pol, cred):
     if not cred:
         return
